@@ -45,6 +45,8 @@ val nth : nat -> 'a1 list -> 'a1 -> 'a1
 
 val flat_map : ('a1 -> 'a2 list) -> 'a1 list -> 'a2 list
 
+val firstn : nat -> 'a1 list -> 'a1 list
+
 val skipn : nat -> 'a1 list -> 'a1 list
 
 type positive =
@@ -187,3 +189,144 @@ type outcome =
 val run_file : bool -> enc_opts -> (z list -> z list) -> z list -> outcome
 
 val repo_check_min : bool
+
+type bytes = z list
+
+val bytes_eqb : bytes -> bytes -> bool
+
+type role =
+| RIn
+| ROut
+| RTmp
+| RBackup
+| RMd5
+
+val role_eqb : role -> role -> bool
+
+type content =
+| Data of bytes
+| Digest of bytes
+| DigestPrefix of bytes * nat
+
+type fstate =
+| Absent
+| Closed of content
+| Writing of content * bool
+
+type opk =
+| KStat
+| KFopenR
+| KFopenW
+| KFread
+| KFclose
+| KWrite
+| KRename
+| KUnlink
+| KOpen
+| KRead
+| KClose
+| KUtime
+
+type ev = { e_op : opk; e_role : role; e_ok : bool }
+
+type fault =
+| FFail
+| FFull of nat
+
+type plan = { faults : (nat -> fault option);
+              crash : (nat * nat option) option }
+
+type st = { disk : (role -> fstate); nop : nat; trace : ev list }
+
+type 'a res =
+| Ok of 'a * st
+| Stop of z option * st
+
+type 'a m = st -> 'a res
+
+val ret : 'a1 -> 'a1 m
+
+val bind : 'a1 m -> ('a1 -> 'a2 m) -> 'a2 m
+
+val exit_ : z -> 'a1 m
+
+val upd : (role -> fstate) -> role -> fstate -> role -> fstate
+
+val begin_op : plan -> fault option m
+
+val crashw_here : plan -> st -> nat option
+
+val log : opk -> role -> bool -> unit m
+
+val get : role -> fstate m
+
+val put : role -> fstate -> unit m
+
+val exists_ : fstate -> bool
+
+val op_probe : plan -> opk -> role -> bool m
+
+val op_read : plan -> opk -> role -> content option m
+
+val op_close : plan -> role -> unit m
+
+val op_simple : plan -> opk -> role -> bool m
+
+val op_fopen_w : plan -> role -> bool m
+
+val app_content : content -> content -> nat option -> content
+
+val bites : content -> nat -> bool
+
+val eff_fault : content -> fault option -> fault option
+
+val eff_crash : content -> nat option -> nat option
+
+val op_write : plan -> role -> content -> unit m
+
+val op_fclose_w : plan -> role -> bool m
+
+val op_rename : plan -> role -> role -> bool m
+
+val op_unlink : plan -> role -> bool m
+
+type mode = { in_place : bool; to_file : bool; no_backup : bool;
+              if_changed : bool; do_check : bool; keep_mtime : bool }
+
+val eX_IOERR : z
+
+val eX_SOFTWARE : z
+
+val eX_FMT : z
+
+val content_eqb : content -> content -> bool
+
+val bytes_of : content -> bytes
+
+val load : plan -> bytes m
+
+val backup_copy : plan -> bytes -> unit m
+
+val content_matches : plan -> role -> role -> bool m
+
+val create_md5 : plan -> unit m
+
+type out = { stdout : bytes; check_fail : bool }
+
+val write_out :
+  plan -> mode -> (bytes -> bytes option) -> bytes option -> bytes -> out m
+
+val after_load :
+  plan -> mode -> (bytes -> bytes option) -> bytes -> bytes option -> out m
+
+val do_source_file : plan -> mode -> (bytes -> bytes option) -> out m
+
+type result = { r_disk : (role -> fstate); r_exit : z option;
+                r_trace : ev list; r_out : out option; r_ops : nat }
+
+val run :
+  plan -> mode -> (bytes -> bytes option) -> (role -> fstate) -> result
+
+val no_plan : plan
+
+val disk0 : bytes -> role -> fstate
